@@ -45,10 +45,19 @@ def quota_writes(ctx):
     """All writes to Connection.send_quota in the crate, attributed to handler call sites when they live in a
     local helper function."""
     raw = []
+    hp = ctx.inbound_handler()
+    hm = ctx.outbound_handler()
+    # the handlers are looked at in flattened form (helpers, closures and combinators inlined): a write that lives in
+    # a helper inlined there is seen at the place where it takes effect, and the helper's own body is not counted again
+    inlined = set(hp.fn.get("inlined", [])) | set(hm.fn.get("inlined", []))
+    bodies = [hp, hm]
     for f in ctx.facts.fns:
         if "context" not in f["path"] and "client" not in f["path"]:
             continue
-        body = ctx.world.body(f["path"])
+        if f["path"] in (hp.path, hm.path) or f["path"] in inlined:
+            continue
+        bodies.append(ctx.world.body(f["path"]))
+    for body in bodies:
         for i in sorted(body.reach):
             for st in body.blocks[i]["stmts"]:
                 if st["k"] != "assign":
@@ -72,8 +81,6 @@ def quota_writes(ctx):
                 elif any(a[0] == "field" and a[2] == "remote_receive_maximum" for a in body.rv_atoms(rv)):
                     kind = "reset"
                 raw.append(QW(body, i, st, kind))
-    hp = ctx.inbound_handler()
-    hm = ctx.outbound_handler()
     out = []
     for w in raw:
         if w.body.path in (hp.path, hm.path) or w.body.path.endswith("::handle_connack") or w.body.fn["kind"] != "fn":
